@@ -2,7 +2,7 @@
 # Run every seeded change through the quick check of the property it was seeded for (sequentially; /repo is patched and
 # restored by seedtest.sh).  usage: seedrun.sh [seed-id ...]
 cd /verif || exit 2
-if [ $# -eq 0 ]; then set -- C18a C02a C14a C03b C03a C19a C15a C01a C06a C05a C09a C04a C11a C13a C12a C10a; fi
+if [ $# -eq 0 ]; then set -- C18a C02a C02b C14a C03b C03a C19a C16a C15a C17a C01a C08b C06a C05a C09a C04a C04b C11a C13a C12a C12b C10a; fi
 for id in "$@"; do
   prop=$(echo $id | cut -c1-3)
   ./lib/seedtest.sh $id $prop
